@@ -4,15 +4,15 @@ import json, subprocess
 
 CLAIMED = {
  "C01": dict(
-   text="Bounded adversary synthesis on the real multi-node code: three real correct nodes (filters, terms, storage) and one Byzantine committee member whose messages are entirely symbolic (any kind and fields; genuine signatures only under Byzantine/outsider keys, byte-exact replays allowed). A run is a listed honest prefix with partial delivery (all locked; one node committed) and election timeouts, followed by <=2 (quick) / <=3 (thorough) adversarial multicasts each followed by a FIFO flush of the honest traffic; the assertion is agreement itself (all commit callbacks of correct nodes carry the same block), so a violation is a concrete run replayed natively on the real TermInCommittees. The known stand-alone-PREPREPARE attack (S7) is reported as an input class; the general query excludes that class. This is a bounded search, not a proof of agreement.",
-   note="Trusted: gosym interpreter; ideal signatures with the unforgeability assumption; stubs; n=4 equal weights, one Byzantine member; only the listed prefixes, kinds and delivery patterns.",
+   text="Bounded adversary synthesis on the real multi-node code: three real correct nodes (filters, terms, storage) and one Byzantine committee member whose messages are entirely symbolic (any kind and fields; genuine signatures only under Byzantine/outsider keys, byte-exact replays allowed). A run is a listed honest prefix with partial delivery (all locked; one node committed) and election timeouts, followed by <=2 (quick) / <=3 (thorough) adversarial multicasts each followed by a FIFO flush of the honest traffic; the assertion is agreement itself (all commit callbacks of correct nodes carry the same block), so a violation is a concrete run replayed natively on the real TermInCommittees. Two deeper prefixes reach later views: (4) a Byzantine first leader shows X to two nodes whose PREPAREs it keeps, an honest view 1 commits Y at one node, five further timeout rounds lead to view 6 (weights 1,2,3,4) where one symbolic proof-carrying vote meets the honest votes in flight; (5) the view-1 re-proposal is adopted but not prepared, a second timeout leads to the Byzantine-led view 2, one symbolic NEW_VIEW, after which the Byzantine member goes along with whatever the correct nodes prepared. The known stand-alone-PREPREPARE attack (S7) is reported as an input class; the general query excludes that class. This is a bounded search, not a proof of agreement.",
+   note="Trusted: gosym interpreter; ideal signatures with the unforgeability assumption; stubs; n=4, equal weights or 1,2,3,4, one Byzantine member; only the listed prefixes, kinds and delivery patterns.",
    design="6/C01"),
  "C18": dict(
    text="Bounded symbolic model checking of the real calcLeaderOfViewAndCommittee / isLeaderOfViewForThisCommittee: for each committee size n the 64-bit view is one symbolic variable, so each solver verdict covers all 2^64 views (no panic, result = members[view mod n], determinism, n consecutive views give n distinct leaders). Sizes are concrete per query (quick: 4,5,7,22,64; thorough: every n in 4..64).",
    note="Trusted: the gosym SSA interpreter (validated by native replay of every model), cvc5 1.0 integer blasting / z3; committee ids are the concrete bytes 1..n.",
    design="6/C18"),
  "C06": dict(
-   text="Bounded symbolic model checking of the real quorum package (CalcQuorumWeight, CalcByzMaxWeight, IsQuorum, HasHonest, getCommitteeSubsetWeight incl. its map[string]bool and the hex MemberId.String keys): all member weights are symbolic 64-bit values (total < 2^64, totals above 2^53 and near 2^64 included) and the id lists are lists of symbolic bytes, so one solver verdict covers every weight vector, every subset, every duplicate/outsider pattern for the given sizes. Assertions: f and Q exact, reported weight = sum over members occurring in the list, quorum intersection > f, quorum implies has-honest, complement of any <=f subset is a quorum, monotonicity, foreign ids add nothing.",
+   text="Bounded symbolic model checking of the real quorum package (CalcQuorumWeight, CalcByzMaxWeight, IsQuorum, HasHonest, getCommitteeSubsetWeight incl. its map[string]bool and the hex MemberId.String keys): all member weights are symbolic 64-bit values (total < 2^64, totals above 2^53 and near 2^64 included) and the id lists are lists of symbolic bytes, so one solver verdict covers every weight vector, every subset, every duplicate/outsider pattern for the given sizes. Assertions: f and Q exact, reported weight = sum over members occurring in the list, quorum intersection > f, quorum implies has-honest, complement of any <=f subset is a quorum, monotonicity, foreign ids add nothing. A second harness varies the id shapes: member ids of length 1, 3, 20, 21 sharing all but their last byte, list entries one byte shorter / equal / one byte longer with symbolic tail bytes (truncated ids, ids extended by 0x00, ids differing in the last byte only): only a byte-for-byte equal id adds weight.",
    note="Trusted: gosym interpreter and its merged-map / hex-string models (validated by native replay), cvc5 --solve-bv-as-int=sum, z3. Sizes: n=4 with lists of 5 (quick), n=4..7 with lists of n+2 (thorough).",
    design="6/C06"),
  "C19": dict(
@@ -20,15 +20,15 @@ CLAIMED = {
    note="Trusted: gosym interpreter, math.Pow(2,y) summary (native for concrete y; >= 2^64 for symbolic y >= 64), amd64 float->int conversion model, cvc5/z3.",
    design="6/C19"),
  "C02": dict(
-   text="Bounded symbolic model checking of the real WorkerLoop.ValidateBlockConsensus (and GetMemberIdsFromBlockProof). (i) Proofs built with the real BlockProofBuilder where every field is symbolic: type tag, instance, height, view, hash, 0..5 signer ids, per-signer signature validity, seed signature, block, previous proof, soft/strict mode, committee weights (64-bit) and membership errors; acceptance must imply each conjunct of the reference predicate (COMMIT type, instance, height, commitment, every signature valid, members, pairwise distinct, weight >= Q resp. > f computed independently, seed signature). (ii) Fully symbolic proof byte strings (<=12 quick / <=24 thorough): no panic escapes, acceptance implies the predicate on the parsed view.",
+   text="Bounded symbolic model checking of the real WorkerLoop.ValidateBlockConsensus (and GetMemberIdsFromBlockProof). (i) Proofs built with the real BlockProofBuilder where every field is symbolic: type tag, instance, height, view, hash, 0..5 signer ids, per-signer signature validity, seed signature, block, previous proof, soft/strict mode, committee weights (64-bit) and membership errors; acceptance must imply each conjunct of the reference predicate (COMMIT type, instance, height, commitment, every signature valid, members, pairwise distinct, weight >= Q resp. > f computed independently, seed signature). Committees of total weight 0 are included (no signer set is a quorum). (ii) Fully symbolic proof byte strings (<=12 quick / <=24 thorough): no panic escapes, acceptance implies the predicate on the parsed view. (iii) A genuine certificate (1 signer quick; 1,3,4 thorough) with one 4-byte window at a symbolic position replaced by a small or near-2^32 value: no panic escapes, including from goroutines the validation might spawn (run to completion at the spawn point, a panic there is a process crash).",
    note="Trusted: gosym interpreter; ideal signature registry and block-commitment stubs; SHA-256 seed derivation computed exactly on the concrete previous seed signature; committee of 4.",
    design="6/C02"),
  "C12": dict(
-   text="Bounded symbolic model checking of the real message entry path: fully symbolic content bytes (length <=16 quick / <=24 thorough, with/without block) go through one iteration of the real MainLoop.run in a channel model (the deferred worker.interrupt() is interpreted, so a main-loop panic shows up as the permanent wedge the property names) and then through one iteration of the real WorkerLoop.Run (filters and term handlers). Assertion: no panic escapes either loop. ValidateBlockConsensus / GetMemberIdsFromBlockProof on arbitrary bytes are decided by the C02 check.",
+   text="Bounded symbolic model checking of the real message entry path: fully symbolic content bytes (length <=16 quick / <=24 thorough, with/without block) go through one iteration of the real MainLoop.run in a channel model (the deferred worker.interrupt() is interpreted, so a main-loop panic shows up as the permanent wedge the property names) and then through one iteration of the real WorkerLoop.Run (filters and term handlers). Assertion: no panic escapes either loop. Structured mutation: a genuine message of each kind with one symbolic 4-byte window, at the current height (main loop + worker handler, then an honest round must still commit) and at the NEXT height (cached by the height filter, then the node is synced and the cached message reaches the new term's handlers outside the per-message recovery). A full worker queue must not block the main loop. ValidateBlockConsensus / GetMemberIdsFromBlockProof on arbitrary bytes are decided by the C02 check; its mutated-certificate harness also runs here.",
    note="Trusted: gosym interpreter and its channel/select model (single interpreted thread; harness plays the sender); membuffers unsafe accessors modelled as little-endian reads with over-read detection.",
    design="6/C12"),
  "C20": dict(
-   text="Bounded symbolic model checking of the wire round trip: the real MessageFactory builds each of the five message types (VIEW_CHANGE with/without prepared proof of 0..3 PREPAREs, NEW_VIEW re-encoding 0..4 votes through ExtractConfirmationsFromViewChangeMessages) and block proofs from 1..4 commits, with all field contents symbolic; ToConsensusRawMessage -> ToConsensusMessage must give back equal type, instance, height, view, hash, sender, nested proof/vote fields, identical raw bytes, and every signature must still verify over the re-read bytes. Equalities are decided as term identities for all values at once.",
+   text="Bounded symbolic model checking of the wire round trip: the real MessageFactory builds each of the five message types (VIEW_CHANGE with/without prepared proof of 0..3 PREPAREs, NEW_VIEW re-encoding 0..4 votes through ExtractConfirmationsFromViewChangeMessages) and block proofs from 1..4 commits, with all field contents symbolic; ToConsensusRawMessage -> ToConsensusMessage must give back equal type, instance, height, view, hash, sender, nested proof/vote fields, identical raw bytes, and every signature must still verify over the re-read bytes. Equalities are decided as term identities for all values at once. Parsing depends on the bytes only: an envelope object that was parsed before (same pointer, or a by-value copy) and now carries another message parses as that message.",
    note="Trusted: gosym interpreter (term rewriting of little-endian split/recompose is part of the engine), ideal signature registry. Field lengths limited to {0,1,2,3,4,5,8,32}.",
    design="6/C20"),
  "C08": dict(
@@ -36,15 +36,15 @@ CLAIMED = {
    note="Trusted: gosym interpreter; ideal signature registry, proposal/commitment stubs; committee of 4 equal weights; node index symbolic.",
    design="6/C08"),
  "C07": dict(
-   text="Bounded symbolic model checking of NEW_VIEW acceptance at one real node: one NEW_VIEW whose header, embedded proposal and each of 0..4 votes (incl. prepared proofs) are entirely symbolic is delivered to a fresh / timed-out / locked node; adopting the view, storing the proposal or sending PREPARE must imply: signed by leader(v), for this instance/height/view, a set of validly signed votes for (instance,height,v) from distinct members of quorum weight, proposal = block and hash of the highest valid prepared proof among them or else approved by ValidateBlockProposal in this step. A symbolic stand-alone PREPREPARE covers the bare-proposal clause (known finding S7). The leader-side clause is decided by the C09 leader harness.",
+   text="Bounded symbolic model checking of NEW_VIEW acceptance at one real node: one NEW_VIEW whose header, embedded proposal and each of 0..4 votes (incl. prepared proofs) are entirely symbolic is delivered to a fresh / timed-out / locked node; adopting the view, storing the proposal or sending PREPARE must imply: signed by leader(v), for this instance/height/view, a set of validly signed votes for (instance,height,v) from distinct members of quorum weight, proposal = block and hash of the highest valid prepared proof among them or else approved by ValidateBlockProposal in this step. A symbolic stand-alone PREPREPARE covers the bare-proposal clause (known finding S7). Further harnesses: a node still holding the unprepared view-0 proposal (the fresh-block clause must not be short-cut by a repeated hash); NEW_VIEWs with three genuine proofs at symbolically chosen views 0..6 in every order (adopted iff the proposal is the block of the highest proof); a genuine NEW_VIEW of a symbolic foreign instance and symbolic future height that waits in the future cache until the node is synced to that height. The leader-side clause is decided by the C09 leader harnesses.",
    note="Trusted: as C08. Known finding: bare PREPREPARE in view>0 (known_findings.json).",
    design="6/C07"),
  "C09": dict(
-   text="Bounded symbolic model checking of the lock hand-over on the real code: (vote side) a node that accepted the proposal receives PREPAREs from a symbolic subset, optionally adopts view 1 through an honest locked NEW_VIEW and prepares there, then times out; its VIEW_CHANGE must carry a proof iff it is prepared, for its latest prepared view, with the matching block, accepted by another member's real ValidatePreparedProof and by the reference predicate. (leader side) the leader of view 2 receives votes of 5 shapes from 3 members in 3 orders; the NEW_VIEW it emits must embed exactly the votes counted, propose the block/hash of the highest-view proof among them, and request a fresh block iff none carries a proof.",
+   text="Bounded symbolic model checking of the lock hand-over on the real code: (vote side) a node that accepted the proposal receives PREPAREs from a symbolic subset, optionally adopts view 1 through an honest locked NEW_VIEW and prepares there, then times out; its VIEW_CHANGE must carry a proof iff it is prepared, for its latest prepared view, with the matching block, accepted by another member's real ValidatePreparedProof and by the reference predicate. (leader side) the leader of view 2 receives votes of 5 shapes from 3 members in 3 orders; the NEW_VIEW it emits must embed exactly the votes counted, propose the block/hash of the highest-view proof among them, and request a fresh block iff none carries a proof; a second leader harness (view 6) lets each of the three voters carry a genuine proof of a symbolically chosen view 0..5 or none, in 3 arrival orders.",
    note="Trusted: as C08; concrete weight vectors [1,1,1,1],[3,1,1,1],[1,2,3,4],[2,2,1,1].",
    design="6/C09"),
  "C10": dict(
-   text="Bounded symbolic model checking of the outbox of one real node over sequences of 2 (quick) / up to 3 (thorough) events, each a fully symbolic PREPREPARE / PREPARE / COMMIT / VIEW_CHANGE, an election timeout or a re-delivery, from 4 prefix states: per (height,view) one proposal hash, one PREPARE hash, one COMMIT hash; PREPARE only for the stored proposal of that view's leader, never as leader, only in the node's current view; COMMIT only with a prepared certificate or commit quorum in the log; VIEW_CHANGE views strictly increase; no PREPREPARE/PREPARE for a view below the current one.",
+   text="Bounded symbolic model checking of the outbox of one real node over sequences of 2 (quick) / up to 3 (thorough) events, each a fully symbolic PREPREPARE / PREPARE / COMMIT / VIEW_CHANGE, an election timeout, a re-delivery, a well-formed NEW_VIEW of the current/next view, a delayed genuine NEW_VIEW of an older view or a late genuine vote, from 6 prefix states (incl. holding two COMMITs, and elected leader that already sent its NEW_VIEW): per (height,view) one proposal hash, one PREPARE hash, one COMMIT hash; PREPARE only for the stored proposal of that view's leader, never as leader, only in the node's current view; COMMIT only with a prepared certificate or commit quorum in the log; VIEW_CHANGE views strictly increase; no PREPREPARE/PREPARE for a view below the current one.",
    note="Trusted: as C08.",
    design="6/C10"),
  "C11": dict(
@@ -52,15 +52,15 @@ CLAIMED = {
    note="Trusted: as C08; both nodes share registry and committee.",
    design="6/C11"),
  "C03": dict(
-   text="Bounded symbolic model checking: a real node holding the proposal receives genuine COMMITs and up to 3 fully symbolic COMMITs (any header incl. type tag, any sender incl. outsiders with valid keys, signature and share validity symbolic); whenever its commit callback fires, the (block, proof) it hands out must be accepted by the strict ValidateBlockConsensus of a second real node with the same committee and previous proof; at most one commit per term.",
+   text="Bounded symbolic model checking: a real node holding the proposal receives genuine COMMITs and up to 3 fully symbolic COMMITs (any header incl. type tag, any sender incl. outsiders with valid keys, signature and share validity symbolic); whenever its commit callback fires, the (block, proof) it hands out must be accepted by the strict ValidateBlockConsensus of a second real node with the same committee and previous proof; at most one commit per term. Also: a symbolic COMMIT cached for the next height (two heights committed), and delayed view-0 COMMITs that arrive after 1..2 timeouts and a fully symbolic PREPREPARE (and PREPARE) of a later view.",
    note="Trusted: as C08.",
    design="6/C03"),
  "C04": dict(
-   text="Same runs as C03 with external-validity assertions at the commit callback: block height = term height, block satisfies the certified hash, the stored PREPREPARE of the certified view is validly signed by that view's leader and carries the delivered block, and the block was approved by this node's ValidateBlockProposal (blocks with a symbolic proposal-OK flag) or produced by its own RequestNewBlockProposal.",
+   text="Same runs as C03 with external-validity assertions at the commit callback: block height = term height, block satisfies the certified hash, the stored PREPREPARE of the certified view is validly signed by that view's leader and carries the delivered block, and the block was approved by this node's ValidateBlockProposal (blocks with a symbolic proposal-OK flag) or produced by its own RequestNewBlockProposal. Additional runs: a timed-out node (with or without the unprepared view-0 proposal still stored) receives one entirely symbolic NEW_VIEW followed by genuine PREPAREs/COMMITs for whatever it accepted; a weighted leader re-proposal with a Byzantine vote attaching an arbitrary block; delayed view-0 COMMITs after a symbolic later-view PREPREPARE.",
    note="Trusted: as C08; approval is judged at the committing node itself.",
    design="6/C04"),
  "C17": dict(
-   text="Bounded symbolic model checking of the real RawMessageFilter + State: k operations (3,4 quick; up to 5 thorough), each a symbolic choice of receiving a message with symbolic 64-bit height / instance / sender or advancing to a symbolic larger height and draining the cache; assertions at every delivery (own height only, right instance, not own, at most once, arrival order per height, never a past message) and the guaranteed-delivery clause at every advance.",
+   text="Bounded symbolic model checking of the real RawMessageFilter + State: k operations (3,4 quick; up to 5 thorough), each a symbolic choice of receiving a message with symbolic 64-bit height / instance / sender or advancing to a symbolic larger height and draining the cache; assertions at every delivery (own height only, right instance, not own, at most once, arrival order per height, never a past message) and the guaranteed-delivery clause at every advance. Also on the real worker: complete cached traffic of the next height, and the window between a commit whose next round is refused as stale (a sync was accepted meanwhile) and the worker taking that sync: the state height that routes messages equals the running term's height and a message of the next height is not handled by the old term.",
    note="Trusted: gosym interpreter (fork-mode maps with symbolic keys). Reading of the ordering clause as documented in DESIGN.md 6/C17.",
    design="6/C17"),
  "C15": dict(
@@ -68,11 +68,11 @@ CLAIMED = {
    note="Trusted: gosym interpreter incl. context and channel models; wall-clock promptness is outside.",
    design="6/C15"),
  "C13": dict(
-   text="Bounded symbolic model checking under a statically checked sequential reduction: (i) State mutators with symbolic arguments from a symbolic state keep (height, view) lexicographically non-decreasing with view reset exactly on height increase; (ii) the real WorkerLoop from a symbolic start height over 2 (quick) / 3 (thorough) events out of {honest commit round with symbolic callback failure, sync to a symbolic height, election timeout, re-delivered old traffic}: round-callback heights strictly increase, commit-callback heights strictly increase, one commit per round, a commit for h is only followed by rounds above h.",
+   text="Bounded symbolic model checking under a statically checked sequential reduction: (i) State mutators with symbolic arguments from a symbolic state keep (height, view) lexicographically non-decreasing with view reset exactly on height increase; (ii) the real WorkerLoop from a symbolic start height over 2 (quick) / 3 (thorough) events out of {honest commit round with symbolic callback failure, sync to a symbolic height, election timeout, re-delivered old traffic}: round-callback heights strictly increase, commit-callback heights strictly increase, one commit per round, a commit for h is only followed by rounds above h. Also: the term that survives its own commit (failing callback) goes through a view change and becomes prepared again with early COMMITs of the later view stored (one commit callback per height); at every observation point the state height equals the height of the last announced round, including the window in which a sync was accepted by the main loop while the worker was inside the commit callback.",
    note="Trusted: gosym interpreter; the reduction's single-writer premise is a static SSA check reported in the evidence, not a solver result; real goroutine interleavings are outside.",
    design="6/C13"),
  "C14": dict(
-   text="Bounded symbolic model checking of node sync: the worker's handling of UpdateState for a symbolic block height from a symbolic start height (at/above the current height: the node enters height b+1, the round callback gets canBeFirstLeader=false, no view-0 PREPREPARE above height 1; below: nothing changes), and MainLoop.run in the channel model for 1..3 UpdateState calls with symbolic heights and an empty or pre-filled worker slot (the loop never blocks, every call is received, the single slot ends up holding the newest sync).",
+   text="Bounded symbolic model checking of node sync: the worker's handling of UpdateState for a symbolic block height from a symbolic start height (at/above the current height: the node enters height b+1, the round callback gets canBeFirstLeader=false, no view-0 PREPREPARE above height 1; below: nothing changes), and MainLoop.run in the channel model for 1..3 UpdateState calls with symbolic heights and an empty or pre-filled worker slot (the loop never blocks, every call is received, the single slot ends up holding the newest sync). UpdateState is also taken by the main loop while the worker's 1000-message queue is full.",
    note="Trusted: as C13, plus the statically checked fact that only MainLoop methods send on the worker's channels.",
    design="6/C14"),
 }
